@@ -35,6 +35,14 @@ CLAIMED["C12"] = dict(engine="tcp-stream", tech="TLA+ model TcpStream.tla (write
    text="TLC enumerates every split of the stream into reads, coalescing, short write of every unit length with temporary timeout or hard error, (n>0,timeout)/(n>0,EOF) reads, stalls and cuts for small streams; each plan is executed on the real transport and the recorded Send/Receive results and accepted byte ranges are checked by TLC against the same operators.", ref="DESIGN.md 3.4, 5 (C12)", note=TCP_NOTE)
 CLAIMED["C16"] = dict(engine="tcp-stream", tech="TLA+ model TcpStream.tla (LimitedReader budget re-arm, decoder read-ahead, terminator accounting) checked by TLC; every size/fragmentation plan replayed on the real transport with ReadLimit set; TLC monitor TcpObs (C16_PerReceiveBudget, C16_RejectHuge, C16_AcceptSmall)",
    text="All envelope sizes around the limit (below, at +-1 byte, between one and two limits, two limits, above) at first and later stream positions under every fragmentation inside the bounds; bytes consumed per Receive are measured at the scripted connection.", ref="DESIGN.md 3.4, 5 (C16)", note=TCP_NOTE)
+CODEC_NOTE = ("TLC enumerates the abstract domain of Codec.tla completely inside its bounds; string payloads (escapes, unicode, surrogate pairs, separators) come from a seeded pool and are sampled; "
+              "equality is judged by an independent field-by-field projection of the Go values; trusted: TLC, CommunityModules Json, Go runtime, encoding/json, gorilla/websocket.")
+CLAIMED["C01"] = dict(engine="codec", tech="TLA+ model Codec.tla (wire keys, kind discrimination list, document nesting, text grammars) enumerated by TLC; every abstract envelope is built for real and round-tripped through the typed decoders, the TCP receive path and a real WebSocket pair; TLC monitor CodecObs (C01_KindPreserved, C01_Equal, C01_TextRoundTrip)",
+   text="Every combination of optional header fields over one body per kind and every body (document kinds nested to depth 3-4, all enum members, option lists, authentication schemes) over representative headers is enumerated by TLC, built as a real envelope and decoded three ways; text forms of nodes/identities/media types are enumerated over a 4-symbol alphabet and the real String/Parse functions are compared with the TLA+ transcription of the grammar.", ref="DESIGN.md 3.7, 5 (C01)", note=CODEC_NOTE)
+CLAIMED["C02"] = dict(engine="codec", tech="TLA+ model Codec.tla of the decode outcome (ok / err / panic) of wire trees with deviations; TLC enumerates every single (thorough: double) structural deviation at every path; each mutant is rendered to JSON and fed to all typed decoders and the TCP receive path; TLC monitor CodecObs (C02_NoPanic, C02_Stable)",
+   text="Structural mutant space (delete, null, each wrong JSON type, at every field path incl. nested documents) generated from the specification and executed on the real decoders; accepted input is re-encoded and decoded again.", ref="DESIGN.md 3.7, 5 (C02)", note=CODEC_NOTE + " Raw byte-level coverage-guided fuzzing, truncation and concatenation are not part of this check.")
+CLAIMED["C11"] = dict(engine="codec", tech="TLA+ model Codec.tla of the reply builders (Sender rule, correlation, resource type); TLC enumerates all from/pp/to presence combinations x methods x builders x resource kinds; real builders are called and their result encoded and decoded through the TCP receive path; TLC monitor CodecObs (C11_Addressed, C11_Correlated, C11_WireOk)",
+   text="Finite product of builder inputs enumerated completely; each reply is checked field by field and must survive the wire.", ref="DESIGN.md 3.7, 5 (C11)", note=CODEC_NOTE + " The live ping auto-reply is exercised by the server engines.")
 CLAIMED["C06"]["engine"] = "hs-server+hs-client"
 CLAIMED["C06"]["note"] = HS_NOTE + " Both roles: server role on HsServer behaviours, client role on HsClient behaviours."
 CLAIMED["C06"]["tech"] += " and HsClient.tla + C06_ClientSendGuard for the client role"
@@ -68,6 +76,9 @@ m = {
            "baseline_off_cmd": "cd /repo && GOFLAGS=-mod=mod GOPROXY=off GOSUMDB=off GOTOOLCHAIN=local go test -json -vet=off -count=1 -timeout 25m ./...",
            "source_commits": hook_commits, "add_only": True},
  "engines": [
+   {"name": "codec", "path": "spec/Codec.tla spec/CodecMC.tla spec/CodecObs.tla harness/codec tools/engines/codec.py",
+    "serves_properties": ["C01", "C02", "C11"],
+    "kind_free_text": "TLA+ model of the codec (wire keys, classification, decode outcome of deviating wire trees, reply builders, text grammars), TLC enumeration of the bounded domain, execution on the real codec, TLC monitor"},
    {"name": "tcp-stream", "path": "spec/TcpStream.tla spec/TcpStreamMC.tla spec/TcpProps.tla spec/TcpObs.tla harness/tcps tools/engines/tcp_stream.py",
     "serves_properties": ["C12", "C16"],
     "kind_free_text": "TLA+ model of the TCP byte path + TLC exhaustive check and plan generation, replay on the real tcpTransport over scripted connections, TLC trace monitor"},
